@@ -1,5 +1,5 @@
 import Invoke.Lemmas.Env
-import Invoke.Model.Levels
+import Invoke.Lemmas.Levels
 /-! # C16 — environment variables override exactly the existing settings they name, typed; ambiguity refused
 
 Property theorems only (helpers: `Lemmas/Env.lean`).  `crawl` / `castLeaf` / `loadEnv` model
@@ -219,6 +219,40 @@ theorem env_level_position :
     mergeOrder = [.defaults, .collection, .system, .user, .project] ++ .env :: [.runtime, .overrides, .modifications] := by
   decide
 
+/-! ## loading again (several `load_shell_env()` on one object) -/
+
+/-- a successful cast keeps the kind of the value: casting by a value the environment supplied earlier is
+    casting by the value it replaced -/
+theorem cast_kind_stable (old y : Leaf) (s : List Char) (h : castLeaf old s = .ok y) (s' : List Char) :
+    castLeaf y s' = castLeaf old s' := castLeaf_kind_stable old y s h s'
+
+/-- RELOAD.  `load` sees the configuration only through its leaf paths and through how each leaf casts: two
+    configurations with the same settings whose values cast alike — e.g. the merged view with and without the env
+    level of an earlier load, as long as the OTHER levels still define every setting — give the same result
+    under every environment: the env level after a reload depends on the environment of that moment only -/
+theorem reload_env_determined (pre : List Char) (environ : Environ) (c c' : KVs)
+    (hpaths : leafPaths [] c = leafPaths [] c')
+    (hcast : ∀ p ∈ leafPaths [] c, ∀ s, castAt c p s = castAt c' p s) :
+    loadEnv pre environ c = loadEnv pre environ c' := loadEnv_congr_config pre environ c c' hpaths hcast
+
+/-- collection `{a: 1}` and `P_A=5`, load; the collection is replaced by `{b: 2}`; same environment, load again -/
+def staleWitness : Except CErr LoadSt :=
+  match (LoadSt.init.load .collection [(['a'], .leaf (.i 1))]).loadShellEnv ['P', '_'] [(['P', '_', 'A'], ['5'])] with
+  | .error e => .error e
+  | .ok c1 => (c1.load .collection [(['b'], .leaf (.i 2))]).loadShellEnv ['P', '_'] [(['P', '_', 'A'], ['5'])]
+
+/-- RECORDED FINDING (C16-stale-env-premerge), on the model of the code as it is: the pre-merge of `load_shell_env`
+    contains the env level of the previous load, so a setting that no other level defines any more is kept alive by
+    the environment (the hypothesis of `reload_env_determined` is what fails) -/
+theorem stale_env_sustains_setting_counterexample :
+    ∃ c, staleWitness = .ok c ∧ getLeaf [['a']] c.cache = some (.i 5) ∧
+      getLeaf [['a']] (view (c.slots.set .env [])) = none := by
+  simp [staleWitness, LoadSt.loadShellEnv, LoadSt.load, LoadSt.init, Levels.set, Levels.empty, view, viewOf,
+    env_level_position, mergeLevel, mergeT, lookup, insert, loadEnv, crawl, clash, hasVarName, varNames, envVarName,
+    joinUnderscore, upperChar, applyVars, lookupEnv, getLeaf, castLeaf, generated_cast_order_documented, castWith,
+    branchApplies, runBranch, classCall, pyInt, stripSpaces, dropSpaces, isPySpace, signedVal, digitsVal,
+    isAsciiDigit, setLeaf]
+
 /-! ## non-vacuity -/
 
 /-- `{a: {b: true, n: 7}, s: "x", a_b: 1}`: `a.b` and `a_b` both map to `A_B` -/
@@ -240,6 +274,14 @@ example : loadEnv ['P', '_'] [] exAmbiguous = .error .ambiguousEnv :=
 example : WF exTree := wfB_sound _ (by decide)
 example : castLeaf (.b true) ['0'] = .ok (.b false) ∧ castLeaf (.b false) ['n', 'o'] = .ok (.b true) :=
   ⟨((env_cast_table _).1 _), ((env_cast_table _).1 _)⟩
+/-- `reload_env_determined` instantiated: `{n: 7}` and `{n: 12}` (an int overridden by an earlier load) reload alike -/
+example (environ : Environ) : loadEnv ['P', '_'] environ [(['n'], .leaf (.i 7))] = loadEnv ['P', '_'] environ [(['n'], .leaf (.i 12))] :=
+  reload_env_determined _ _ _ _ (by simp [leafPaths]) (by
+    intro p hp s
+    simp only [leafPaths, List.nil_append, List.mem_singleton] at hp
+    subst hp
+    simp only [castAt, getLeaf, lookup, if_true]
+    rw [(env_cast_table s).2.2.2.2 7, (env_cast_table s).2.2.2.2 12])
 example : pyInt [' ', '-', '4', '_', '2', ' '] = some (-42) := by decide
 example : pyInt ['4', '_', '_', '2'] = none ∧ pyInt ['x'] = none ∧ pyInt [] = none := by decide
 
